@@ -18,13 +18,13 @@ def search(big=False):
     from DocumentTemplate.DT_HTML import HTML
     from AccessControl.tainted import TaintedString as T
     n = 0
-    values = ['<x>1000', 'a <x y', '%3C<x_', "'<x\n2"]
+    values = ['<x>1000', 'a <x y', '%3C<x_', "'<x\n2", 'aaaa <x b c']
     for k in range(0, 4 if big else 3):
         for combo in itertools.combinations(MODS, k):
             if any(kn <= set(combo) for kn in KNOWN):
                 continue
             for v in values:
-                for extra in ('', ' size=4', ' null="N"', ' fmt="%s"'):
+                for extra in ('', ' size=4', ' size=8', ' null="N"', ' fmt="%s"'):
                     for form in ('<dtml-var x %s%s>', '<dtml-var expr="x" %s%s>'):
                         src = form % (' '.join(combo), extra)
                         n += 1
